@@ -1,1 +1,148 @@
-fn main() { println!("MACHINERY-ERROR check not built yet"); std::process::exit(2); }
+//! C03 — prediction is a per-sample function, identical through every calling form.
+//! Registry check (DESIGN.md §4 C03): every predictor type of the workspace x fitted instances x
+//! ALL ordered sub-selections of a 6-row query pool up to the length bound (incl. the empty batch)
+//! x 4 memory layouts x every calling form, against the model applied to each row alone.
+
+mod registry;
+mod sweep;
+
+use lvmc_core::{json, par_sweep, Ctx, Level, Value, Violation};
+use serde::{Deserialize, Serialize};
+use std::collections::BTreeMap;
+use std::sync::Mutex;
+
+#[derive(Clone, Debug, Serialize, Deserialize)]
+struct Case {
+    entry: String,
+    instance: usize,
+    max_len: usize,
+    #[serde(default)]
+    only: Option<sweep::Only>,
+}
+
+fn run_case(c: &Case) -> Result<sweep::Rep, String> {
+    let reg = registry::registry();
+    let ent = reg.iter().find(|e| e.name == c.entry).ok_or_else(|| format!("unknown registry entry {}", c.entry))?;
+    let args = registry::Args { instance: c.instance, max_len: c.max_len, only: c.only.clone() };
+    let mut rep = sweep::Rep::default();
+    (ent.run)(&args, &mut rep).map_err(|e| format!("fitting {} instance {} failed: {}", c.entry, c.instance, e))?;
+    Ok(rep)
+}
+
+fn replay_value(v: &Value) -> Vec<Violation> {
+    let c: Case = match serde_json::from_value(v.clone()) {
+        Ok(c) => c,
+        Err(e) => {
+            println!("MACHINERY-ERROR replay case does not parse: {}", e);
+            std::process::exit(2);
+        }
+    };
+    let rep = match run_case(&c) {
+        Ok(r) => r,
+        Err(e) => {
+            println!("MACHINERY-ERROR {}", e);
+            std::process::exit(2);
+        }
+    };
+    // keep the violations of the recorded (batch, layout, form)
+    let only = v.get("only").cloned();
+    rep.viols.into_iter().filter(|x| only.is_none() || x.case.get("only") == only.as_ref()).collect()
+}
+
+fn main() {
+    let ctx = Ctx::new("C03", Level::Exploration);
+    ctx.maybe_replay(&replay_value);
+    let max_len = ctx.pick(3usize, 4usize);
+    let instances = 3usize;
+    ctx.set_rule(
+        "cases = (registry entry, fitted instance 0..2 with different data seeds / feature counts / hyper-parameters); registry = 28 entries covering every predictor type of the workspace (k-means, GMM, OLS, isotonic, Tweedie, \
+         elastic net, multi-task elastic net, PLS regression / canonical / CCA, logistic binary / multinomial, SVM C-bool gaussian, C-bool linear / polynomial, probability, regression \
+         linear / gaussian, one-class, decision tree, Gaussian NB, multinomial NB, FTRL, PCA, FastICA, MultiTargetModel, MultiClassModel, Platt over a linear scorer and over an SVM); \
+         per case: query pool of 6 rows (2 training rows, a duplicate of the first, an off-data midpoint, an extreme row, a third training row) x EVERY ordered selection \
+         without repetition of 0..=L pool rows (L = 3 quick / 4 thorough: 157 / 517 batches, the duplicate row gives batches with equal rows) x 4 memory layouts (standard, \
+         column-major, every second row of a larger array, reversed-row) x calling forms {predict(&Array2), predict(Array2), predict(&Dataset), predict(Dataset), predict_inplace \
+         into default_target, predict_inplace into a target holding another batch's result, predict(ArrayView2), predict(&ArrayView2), predict(&Dataset<ArrayView2>)} plus the \
+         composite oracle and predict_inplace with a too long / too short target (standard layout). evaluation = one call of one form on one (batch, layout); \
+         non-trivial = batch of >= 2 rows whose single-row reference outputs are not all equal (so a permutation / mixing / wrong-axis bug is observable); distinct by construction.",
+    );
+    ctx.assume("oracle = the same fitted model applied to each pool row alone as a 1 x p standard-layout Array2 through predict(&Array2); output row i of every batch must equal the single-row output of the selected pool row");
+    ctx.assume("labels (usize / bool / String) are compared exactly; for labels that are an arg-max / threshold of floats (k-means, logistic, SVM classifiers) a mismatch on a row whose decision gap is <= 2(p+2) eps S is counted indeterminate (none expected)");
+    ctx.assume("floats: |batch - single| <= 2(p+2) * eps * S(row), the worst-case difference between two summation orders of the same p products (what ndarray's 8-way unrolled dot vs the strided sequential dot can introduce); S = sum of the magnitudes of the operands of the model's inner product for that row (per-model closure in registry.rs), eps = 2^-52, or 2^-23 with S = 1 for Pr outputs evaluated in f32; the evidence reports how many float cells were bit-identical and the largest deviation in tolerance units");
+    ctx.assume("dataset / owned forms must hand back records with the same shape, strides and bit pattern (view form: the same buffer)");
+    ctx.assume("documented panic: predict_inplace with a target of n+1 or n-1 rows must panic with the message documented in the assert ('The number of data points must match the number of output targets.' / '... memberships.' for k-means) and must not have written into the target");
+    ctx.assume("MultiTargetModel: column j bit-identical to member j's own prediction of the same batch; MultiClassModel: returned label belongs to a member whose probability (computed by that member on the same batch) is maximal, any tied member accepted; Platt: output in [0,1], |output - 1/(1+exp(A f + B))| <= 1e-6 (implementation evaluates the sigmoid in f32; A, B read from the model's Debug form, f from the inner model on the same batch), non-strictly monotone in f over all ordered pairs of pool rows");
+    ctx.assume("Platt and FastICA implement PredictInplace for owned arrays only (trait bounds), so the three view forms do not exist for them; all four layouts are still realised with owned arrays");
+    ctx.assume("training data and pools come from a constant LCG (no entropy source); VERIF_SEED does not influence anything explored");
+
+    let reg = registry::registry();
+    let mut cases: Vec<Case> = Vec::new();
+    for e in &reg {
+        for inst in 0..instances {
+            cases.push(Case { entry: e.name.to_string(), instance: inst, max_len, only: None });
+        }
+    }
+    ctx.extra("registry_entries", json!(reg.len()));
+    ctx.extra("cases_enumerated", json!(cases.len()));
+    ctx.extra("batches_per_case", json!(sweep::n_selections(max_len)));
+
+    let agg: Mutex<BTreeMap<String, u64>> = Mutex::new(BTreeMap::new());
+    let per_entry: Mutex<BTreeMap<String, Value>> = Mutex::new(BTreeMap::new());
+    let maxdev: Mutex<f64> = Mutex::new(0.0);
+    let done = std::sync::atomic::AtomicU64::new(0);
+    par_sweep(&ctx, "registry sweep", &cases, |c| {
+        let t0 = std::time::Instant::now();
+        let rep = match run_case(c) {
+            Ok(r) => r,
+            Err(e) => {
+                println!("MACHINERY-ERROR {}", e);
+                std::process::exit(2);
+            }
+        };
+        ctx.evals(rep.evals, rep.nontrivial);
+        for _ in 0..rep.indeterminate {
+            ctx.indeterminate();
+        }
+        {
+            let mut a = agg.lock().unwrap();
+            for (k, v) in rep.counters.iter() {
+                *a.entry(k.clone()).or_insert(0) += *v;
+            }
+            *a.entry("float_cells_compared".into()).or_insert(0) += rep.float_cells;
+            *a.entry("float_cells_bit_identical".into()).or_insert(0) += rep.float_bit_identical;
+            *a.entry("label_cells_compared".into()).or_insert(0) += rep.label_cells;
+            *a.entry("records_handed_back_checks".into()).or_insert(0) += rep.records_checks;
+            *a.entry("wrong_length_target_panics_checked".into()).or_insert(0) += rep.wrong_len_checks;
+            *a.entry("batches_run".into()).or_insert(0) += rep.batches;
+            *a.entry("followup_reports_suppressed".into()).or_insert(0) += rep.suppressed_followups;
+        }
+        {
+            let mut m = maxdev.lock().unwrap();
+            if rep.max_dev_in_tol_units > *m {
+                *m = rep.max_dev_in_tol_units;
+            }
+        }
+        per_entry.lock().unwrap().insert(
+            format!("{}#{}", c.entry, c.instance),
+            json!({"evaluations": rep.evals, "nontrivial": rep.nontrivial, "batches": rep.batches, "float_cells": rep.float_cells,
+                   "float_cells_not_bit_identical": rep.float_cells - rep.float_bit_identical, "max_dev_in_tol_units": rep.max_dev_in_tol_units,
+                   "label_cells": rep.label_cells, "violations": rep.viols.len(), "single_row_reference_outputs": rep.refs_json, "wall_ms": t0.elapsed().as_millis() as u64}),
+        );
+        if rep.batches as usize != sweep::n_selections(c.max_len) {
+            ctx.capped(&format!("{}#{}: {} of {} batches run (reference unavailable for some pool row)", c.entry, c.instance, rep.batches, sweep::n_selections(c.max_len)));
+        }
+        ctx.sample(|| json!({"entry": c.entry, "instance": c.instance, "max_len": c.max_len, "evaluations": rep.evals, "batches": rep.batches}));
+        ctx.violations(rep.viols);
+        done.fetch_add(1, std::sync::atomic::Ordering::Relaxed);
+    });
+    let done = done.load(std::sync::atomic::Ordering::Relaxed);
+    ctx.extra("cases_completed", json!(done));
+    for (k, v) in agg.lock().unwrap().iter() {
+        ctx.extra(k, json!(v));
+    }
+    ctx.extra("max_float_deviation_in_tolerance_units", json!(*maxdev.lock().unwrap()));
+    ctx.extra("per_entry", json!(*per_entry.lock().unwrap()));
+    if done as usize != cases.len() {
+        ctx.capped(&format!("{} of {} cases completed", done, cases.len()));
+    }
+    ctx.finish(&replay_value);
+}
